@@ -37,3 +37,39 @@ Theorem C12_nonpositive_bet_refused :
   forall g who x, (seat_of g who < nplayers g)%nat -> x <= 0 -> step g (OAct who ABet x) = (g, ErrInvalidAction).
 Proof. exact bet_nonpositive_refused. Qed.
 Print Assumptions C12_nonpositive_bet_refused.
+
+(* no-limit: a raise request to a level below the player's total (what he has behind plus what he has in
+   front) that lifts the wager to match by at least the size of the previous bet or raise is carried out
+   exactly — the level becomes the wager to match, the raiser the last raiser, the increment the new
+   minimum raise; the raiser's wager is the level *)
+From PF Require Import ProofsRaise.
+Theorem C12_legal_raise_carried_out_exactly :
+  forall g i x,
+    Inv g -> (i < nplayers g)%nat -> allowed g i ARaise = true -> m_limit_pot (g_meta g) = false ->
+    st_cw (g_st g) < x -> x < p_initial (get_p g i) -> st_prs (g_st g) <= x - st_cw (g_st g) ->
+    let s := fst (act_raise g i x) in
+    snd (act_raise g i x) = Ok /\
+    st_cw (g_st s) = x /\ st_prs (g_st s) = x - st_cw (g_st g) /\ st_raiser (g_st s) = i /\
+    p_wager (get_p s i) = x /\ p_stack (get_p s i) = p_initial (get_p g i) - x.
+Proof. exact raise_exact. Qed.
+Print Assumptions C12_legal_raise_carried_out_exactly.
+
+(* a request that would lift the wager to match by less than that (or that reaches the player's total) is
+   never carried out as an undersized raise: it is the all-in action *)
+Theorem C12_undersized_raise_is_all_in :
+  forall g i x,
+    allowed g i ARaise = true -> st_cw (g_st g) < x -> 0 <= st_cw (g_st g) ->
+    (p_initial (get_p g i) <= x \/ x - st_cw (g_st g) < st_prs (g_st g)) ->
+    act_raise g i x = act_allin g i.
+Proof. exact raise_undersized_is_allin. Qed.
+Print Assumptions C12_undersized_raise_is_all_in.
+
+(* the wager to match never goes down by an action (it is reset only when a street is closed) *)
+Theorem C12_wager_to_match_never_goes_down :
+  forall g who a x,
+    st_cw (g_st g) <= st_cw (g_st (fst (step g (OAct who a x)))).
+Proof.
+  intros g who a x. cbn [step]. destruct (negb (Nat.ltb _ (nplayers g))) eqn:E; [cbn [fst]; lia|].
+  apply negb_false_iff, Nat.ltb_lt in E. apply cw_never_goes_down_by_an_action. exact E.
+Qed.
+Print Assumptions C12_wager_to_match_never_goes_down.
